@@ -434,3 +434,36 @@ Theorem C08_tdvp2_conserves_lapack : forall (F : ofield) orth split dnorm small 
   denergy d L A (o_A H) = denergy d L (m_A (fst (orth psi))) (o_A H).
 Proof. exact tdvp2_run_lapack. Qed.
 Print Assumptions C08_tdvp2_conserves_lapack.
+
+(* Non-vacuity of C08_tdvp2_conserves_lapack (Proofs/Link2Examples.v): the rational instance of Proofs/Sweeps2Example.v (L = 3, d = 2,
+   H = ZIZ + ZXI + XZI, bond dimensions 1-2-2-1, two steps) run with the REAL Krylov-based solver, numiter = 1 (one Lanczos vector:
+   every numpy.linalg.norm call is on a tensor of norm one, answered exactly by the rational square root; eigh_tridiagonal on the
+   1 x 1 matrix [alpha_0] answered by w = (alpha_0), U = [[1]]; numpy.exp answered by the unimodular constant 3/5 + 4/5 i, so each of
+   the 10 local steps multiplies its tensor by that phase) and an exact rational split oracle (ex3p_split).  The run succeeds; ALL
+   hypotheses of the theorem hold by evaluation (the LAPACK-level contracts of the 10 solver calls — 6 merged two-site, flattened
+   length up to 16, and 4 one-site — and of the 6 split calls by the boolean checker ltdvp2_okb, sound by ltdvp2_okb_ok; Hermiticity
+   of H by mpo_hermb on all 64 word pairs); the evolved state differs from the input (amplitude of |000>), and the conclusion is a
+   non-trivial equality (energy 208201/390625). *)
+From PT Require Import Proofs.KrylovExamples Proofs.KrylovExamples15 Proofs.Link2Examples.
+Example C08_tdvp2_conserves_lapack_nonvacuous :
+  match tdvp_twosite ex_orth ex3p_split ex1p_kexp ex3H ex3Psi exdt exhdt 2 with
+  | Some (A, qD, nrm, tr) =>
+      mpo_shapeb 2 [1; 2; 2; 1]%nat (o_A ex3H) && mps_shapeb 2 [1; 2; 2; 1]%nat (m_A (fst (ex_orth ex3Psi)))
+      && forallb right_isob (m_A (fst (ex_orth ex3Psi))) && mpo_hermb (o_A ex3H) 2
+      && ltdvp2_okb dnorm_ex ex_small ex1_deigh dexp_ex 1 ex3p_split (o_A ex3H) exdt exhdt 2 (rev tr) && Nat.eqb (length tr) 22
+      && Nat.eqb (length (filter (fun t => match c_kind (t_call t) with KH | KH2 => true | _ => false end) tr)) 10
+      && Nat.eqb (length (filter (fun t => match c_kind (t_call t) with SPLITL | SPLITR => true | _ => false end) tr)) 6
+      && keqb CQ (dnorm2 2 3 A) (k1 CQ) && keqb CQ (denergy 2 3 A (o_A ex3H)) (denergy 2 3 (m_A ex3Psi) (o_A ex3H))
+      && negb (keqb CQ (denergy 2 3 A (o_A ex3H)) (k0 CQ))
+      && negb (keqb CQ (amp A [0; 0; 0]%nat) (amp (m_A ex3Psi) [0; 0; 0]%nat))
+  | None => false
+  end = true.
+Proof. vm_compute. reflexivity. Qed.
+(* ... and the theorem applies to it: every hypothesis discharged, conclusion obtained for the model's run *)
+Theorem C08_tdvp2_conserves_lapack_example : forall A qD nrm tr,
+  tdvp_twosite ex_orth ex3p_split ex1p_kexp ex3H ex3Psi exdt exhdt 2 = Some (A, qD, nrm, tr) ->
+  let L := length (o_A ex3H) in
+  (2 <= L)%nat /\ nrm = snd (ex_orth ex3Psi) /\ dnorm2 2 L A = k1 CQ /\
+  denergy 2 L A (o_A ex3H) = denergy 2 L (m_A (fst (ex_orth ex3Psi))) (o_A ex3H).
+Proof. exact tdvp2_run_lapack_example. Qed.
+Print Assumptions C08_tdvp2_conserves_lapack_example.
